@@ -75,6 +75,8 @@ def play(mod, hist):
                 getattr(live[o["pid"] - 1], o["arg"]["n"]).append(observe.build_value(mod, o["arg"]["v"]))
             elif o["op"] == "setnested":
                 setattr(getattr(live[o["pid"] - 1], o["arg"]["n"]), o["arg"]["f"], observe.build_value(mod, o["arg"]["v"]))
+            elif o["op"] == "mutproto":
+                setattr(getattr(mod, "PROTO_%s_%s" % (o["arg"]["cls"], o["arg"]["f"])), o["arg"]["a"], o["arg"]["v"])
             elif o["op"] == "pack":
                 try:
                     live[o["pid"] - 1].pack()
@@ -113,7 +115,7 @@ def _wrun(chunk):
         for gen in (rp.GEN_OFF, None):
             # freshly defined classes per history: the specification starts every history with empty registers
             _W["nonce"] = _W.get("nonce", 0) + 1
-            mod = _W["sc"].load(c["decl"], gen, nonce=(os.getpid(), _W["nonce"]))
+            mod = _W["sc"].load(c["decl"], gen, nonce=(os.getpid(), _W["nonce"]), local=c.get("local", False))
             n += 1
             for clause, detail, k in play(mod, c["hist"]):
                 out.append({"clause": clause, "detail": detail, "prog": c["prog"], "selshare": c["selshare"], "gen": gen,
